@@ -189,7 +189,8 @@ func mkReplicator(kind string, source, sink blobstore.BlobAccess, cnt **counting
 
 // ---- transparency ------------------------------------------------------------------------------
 
-var objContents = [][]byte{[]byte("xxxyy"), []byte("zzz")}
+// Z is the empty object: it has a digest like any other, and "no data to copy" is not "nothing to do".
+var objContents = [][]byte{[]byte("xxxyy"), {}}
 
 type tworld struct {
 	front, back *sim.ModelBlobAccess // front = fast / primary, back = slow / secondary
@@ -479,7 +480,7 @@ func newRWorld(kind string, sinkHas int, faults int) *rworld {
 
 func (w *rworld) now() int { w.clock++; return w.clock }
 
-func rbody(kind string, callers [][]int, sinkHas, faults int, cancelOne bool, single bool) func() {
+func rbody(kind string, callers [][]int, sinkHas, faults int, cancelOne bool, single bool, composite bool) func() {
 	return func() {
 		w := newRWorld(kind, sinkHas, faults)
 		var wg vsync.WaitGroup
@@ -502,7 +503,16 @@ func rbody(kind string, callers [][]int, sinkHas, faults int, cancelOne bool, si
 				w.calls = append(w.calls, rec)
 				defer func() { rec.end = w.now() }()
 				var err error
-				if single && len(ds) == 1 {
+				if composite && len(ds) == 1 {
+					// the read path of GetFromComposite: replicate the parent, then slice it from the sink
+					o := w.objs[idxs[0]]
+					sl := lstore.NewFixedSlicer("", o.Content, 2)
+					var data []byte
+					data, err = w.repl.ReplicateComposite(ctx, ds[0], sl.Pieces[1].Digest, sl).ToByteSlice(100)
+					if err == nil && !bytes.Equal(data, o.Content[sl.Pieces[1].OffsetBytes:]) {
+						failf("replicate-composite:wrong-bytes", "ReplicateComposite returned %q", data)
+					}
+				} else if single && len(ds) == 1 {
 					var data []byte
 					data, err = w.repl.ReplicateSingle(ctx, ds[0]).ToByteSlice(100)
 					if err == nil && !bytes.Equal(data, w.objs[idxs[0]].Content) {
@@ -718,27 +728,30 @@ func main() {
 	}
 	rb := ev.Pick(r, 2, 3)
 	type rs struct {
-		name    string
-		callers [][]int
-		sinkHas int
-		faults  int
-		cancel  bool
-		single  bool
+		name      string
+		callers   [][]int
+		sinkHas   int
+		faults    int
+		cancel    bool
+		single    bool
+		composite bool
 	}
 	for _, kind := range []string{"dedup", "limit", "limit2", "queued"} {
 		for _, x := range []rs{
-			{"two-same", [][]int{{0}, {0}}, 0, 0, false, false},
-			{"two-overlap", [][]int{{0, 1}, {1}}, 0, 0, false, false},
-			{"three-same", [][]int{{0}, {0}, {0}}, 0, 0, false, false},
-			{"two-same-fault", [][]int{{0}, {0}}, 0, 1, false, false},
-			{"three-same-fault", [][]int{{0}, {0}, {0}}, 0, 1, false, false}, // a failing leader with two waiters: both wake up, one must become the next leader
-			{"three-same-cancel", [][]int{{0}, {0}, {0}}, 0, 0, true, false},
-			{"two-overlap-fault", [][]int{{0, 1}, {0}}, 2, 1, false, false},
-			{"two-same-cancel", [][]int{{0}, {0}}, 0, 0, true, false},
-			{"three-cancel-fault", [][]int{{0}, {0, 1}, {1}}, 0, 1, true, false},
-			{"single-and-multiple", [][]int{{0}, {0}}, 0, 1, false, true},
+			{"two-same", [][]int{{0}, {0}}, 0, 0, false, false, false},
+			{"two-overlap", [][]int{{0, 1}, {1}}, 0, 0, false, false, false},
+			{"three-same", [][]int{{0}, {0}, {0}}, 0, 0, false, false, false},
+			{"two-same-fault", [][]int{{0}, {0}}, 0, 1, false, false, false},
+			{"three-same-fault", [][]int{{0}, {0}, {0}}, 0, 1, false, false, false}, // a failing leader with two waiters: both wake up, one must become the next leader
+			{"three-same-cancel", [][]int{{0}, {0}, {0}}, 0, 0, true, false, false},
+			{"two-overlap-fault", [][]int{{0, 1}, {0}}, 2, 1, false, false, false},
+			{"two-same-cancel", [][]int{{0}, {0}}, 0, 0, true, false, false},
+			{"three-cancel-fault", [][]int{{0}, {0, 1}, {1}}, 0, 1, true, false, false},
+			{"single-and-multiple", [][]int{{0}, {0}}, 0, 1, false, true, false},
+			{"two-composite", [][]int{{0}, {1}}, 0, 0, false, false, true}, // copies started by composite reads count against the limit too
+			{"composite-and-multiple", [][]int{{0}, {1}, {0}}, 0, 1, false, false, true},
 		} {
-			scs = append(scs, mc.Scenario{Name: fmt.Sprintf("replicators/%s-%s", kind, x.name), Space: fmt.Sprintf("%s replicator: callers asking for objects %v, sink initially holds mask %d, fault budget %d, cancellation of caller 0: %v, ReplicateSingle: %v; deviation bound %d", kind, x.callers, x.sinkHas, x.faults, x.cancel, x.single, rb), Bound: rb, Body: rbody(kind, x.callers, x.sinkHas, x.faults, x.cancel, x.single), Budget: budget, MaxSteps: 60000})
+			scs = append(scs, mc.Scenario{Name: fmt.Sprintf("replicators/%s-%s", kind, x.name), Space: fmt.Sprintf("%s replicator: callers asking for objects %v, sink initially holds mask %d, fault budget %d, cancellation of caller 0: %v, ReplicateSingle: %v, ReplicateComposite (single-object callers): %v; deviation bound %d", kind, x.callers, x.sinkHas, x.faults, x.cancel, x.single, x.composite, rb), Bound: rb, Body: rbody(kind, x.callers, x.sinkHas, x.faults, x.cancel, x.single, x.composite), Budget: budget, MaxSteps: 60000})
 		}
 	}
 	ed2, ed3 := ev.Pick(r, 7, 8), ev.Pick(r, 5, 6)
